@@ -1,0 +1,24 @@
+//go:build verif
+
+package linux
+
+// Contracts for the deductive checker in /verif (comment-only file).
+
+//vc:only[C11] os/exec.Command in (*State).putScp
+
+//vc:func (*State).loginEnable
+//vc:  requires[C11] !isCompareRun || pass == loginPass
+//vc:func (*State).ApplyCommands
+//vc:  requires[C11] !isCompareRun
+//vc:func (*State).cmd
+//vc:  requires[C11] !isCompareRun
+//vc:func (*State).findIPTablesRestoreCmd
+//vc:  requires[C11] !isCompareRun
+//vc:func (*State).putScp
+//vc:  requires[C11] !isCompareRun
+//vc:func (*State).writeStartup
+//vc:  requires[C11] !isCompareRun
+//vc:func (*State).writeStartupIPTables
+//vc:  requires[C11] !isCompareRun
+//vc:func (*State).writeStartupRouting
+//vc:  requires[C11] !isCompareRun
